@@ -385,6 +385,26 @@ def default(c):
     c.emit("panic")
 section("defaultArmSrc", "", default)
 
+# ---- the locals as `execute_program` sets them up before the loop
+init_defs = []
+try:
+    pre = " ".join(fn[:wm.start()].split())
+    q = re.search(r"let stack = vec!\[0u8; ebpf::STACK_SIZE\]; (?:let mut verif_steps: u64 = 0; )?let mut stacks = \[StackFrame::new\(\); MAX_CALL_DEPTH\]; let mut stack_frame_idx = 0; "
+                  r"let mut reg: \[u64; 11\] = \[ ((?:0, ){10})stack\.as_ptr\(\) as u64 \+ stack\.len\(\) as u64, \]; let mem_base: u64 = if mem\.is_empty\(\) \{ 0 \} else \{ mem\.as_ptr\(\) as u64 \}; "
+                  r"if !mbuff\.is_empty\(\) \{ reg\[1\] = mbuff\.as_ptr\(\) as u64; \} else if !mem\.is_empty\(\) \{ reg\[1\] = mem\.as_ptr\(\) as u64; \}", pre)
+    sf = re.search(r"pub const fn new\(\) -> Self \{ Self \{ return_address: 0, saved_registers: \[0; 4\], stack_usage: StackUsageType::Default, \} \}", " ".join(re.sub(r"//[^\n]*", "", open(os.path.join(REPO_SRC, "stack.rs")).read()).split()))
+    if not q or not sf: raise SyntaxError("set-up of the locals before the loop")
+    init_defs = ["/-- the locals before the loop: a zeroed stack of STACK_SIZE bytes, eight fresh frames (`StackFrame::new()`: return address 0, saved registers 0, usage `Default`), depth 0,",
+                 "    `insn_ptr` 0, registers all zero except r10 = the stack's end and r1 = the metadata buffer if it is non-empty, else the packet if it is non-empty -/",
+                 "def initRegsSrc (m : Memory) : Vector (BitVec 64) 11 :=",
+                 "  let r1 : Nat := if m.mbuff.bytes.size ≠ 0 then m.mbuff.base else if m.mem.bytes.size ≠ 0 then m.mem.base else 0",
+                 "  ((Vector.replicate 11 (0 : BitVec 64)).setIfInBounds 10 (BitVec.ofNat 64 (m.stack.base + m.stack.bytes.size))).setIfInBounds 1 (BitVec.ofNat 64 r1)",
+                 "def initFrameSrc : SFrame := { returnAddress := 0, savedRegisters := (0, 0, 0, 0), stackUsage := %d }" % C["LOCAL_FUNCTION_STACK_SIZE"],
+                 "def stackSizeSrc : Nat := %d" % C["STACK_SIZE"], "def initSrcOk : Bool := true", ""]
+except Exception as ex:
+    problems.append("locals: %s" % ex)
+    init_defs = ["def initRegsSrc (m : Memory) : Vector (BitVec 64) 11 := Vector.replicate 11 0", "def initFrameSrc : SFrame := default", "def stackSizeSrc : Nat := 0", "def initSrcOk : Bool := false", ""]
+defs += init_defs
 lines = ["/- GENERATED by checklib/gen_interp_ctl.py from src/interpreter.rs on every run of ./check: do not edit -/",
          "import RbpfModel.Model.InterpSrc", "set_option linter.unusedVariables false", "namespace Rbpf.Generated.Ctl", "open Rbpf Rbpf.Src", ""] + defs
 lines += ["/-- the opcodes of the four translated arms (constants of src/ebpf.rs) -/",
